@@ -177,7 +177,7 @@ def run(pid, tier, seed):
             at = len(ctr)
             bad = meta[at][2] if at < len(meta) else "?"
             rep.violation("library crashed in an interleaving on several problem objects at %r: %s" % (bad, ctr.crashed[-400:]), dict(ctx, stderr=ctr.stderr[-1500:]),
-                          signature={"symptom": "crash", "op": bad.split()[0]})
+                          signature={"symptom": "crash", "op": bad.split()[0], "cause": core.crash_cause(ctr.stderr)})
             continue
         # model-free independence: a command addressed to slot t leaves the dump of every other slot unchanged
         last = {}
